@@ -18,7 +18,7 @@ see ``PRECONDITIONS``.
 """
 from __future__ import annotations
 
-import math
+import functools
 from dataclasses import dataclass, replace
 from typing import Any, Optional
 
@@ -59,6 +59,7 @@ class GenConfig:
     displacements: bool = True
     max_disp_power: int = 2
     disp_weight: float = 0.3        # chance in tenths that an arbitrary side is a displacement
+    prism_weight: float = 0.5       # chance in tenths that a solid is a make_prism box (else arbitrary sides)
     multiblend: bool = True
     strata: bool = True             # point_data, viewports, instance visibility
     meta: bool = True               # master switch: visgroups, groups, cameras, cordons, non-default settings
@@ -82,23 +83,54 @@ class GenConfig:
 DEFAULT = GenConfig()
 
 # ---------------------------------------------------------------------------------------------------------------------
-# Leaf strategies
+# Strategies.  Every factory is cached per (cfg, args): building/validating strategy objects is far more expensive
+# than drawing from them, so nothing is constructed inside a composite.
 # ---------------------------------------------------------------------------------------------------------------------
+
+_cache = functools.lru_cache(maxsize=None)
+BOOL = st.booleans()
+TINY = [1e-7, 4.9e-7, 5.1e-7, 1e-9, 2.5e-6, 1e-12]
+COMMON_KEYS = ['targetname', 'origin', 'angles', 'spawnflags', 'model', 'file', 'Target', 'rendercolor', 'message']
+CLASSNAMES = ['info_target', 'func_detail', 'func_instance', 'logic_relay', 'prop_static', 'trigger_multiple']
+PLAIN_CHARS = 'abcdefXYZ_0123 -./'
+
+
+def _solo(strategy):
+    """A distinct single-branch wrapper: one_of() flattens nested one_of branches and drops repeated (identical) strategy
+    objects, so weighting by repetition only works with wrappers like this one."""
+    return st.tuples(strategy).map(_first)
+
+
+def _first(t):
+    return t[0]
+
+
+def _pick(*weighted):
+    """one_of with integer weights: _pick((3, a), (1, b))."""
+    alts = []
+    for weight, strategy in weighted:
+        alts.extend(_solo(strategy) for _ in range(weight))
+    return st.one_of(*alts) if len(alts) > 1 else weighted[0][1]
+
 
 def _weighted(plain, nasty, weight: float):
     slots = max(0, min(10, int(round(weight * 10))))
     if slots == 0:
         return plain
-    return st.one_of(*([plain] * (10 - slots) + [nasty] * slots))
+    return _pick((10 - slots, plain), (slots, nasty))
 
 
-TINY = [1e-7, 4.9e-7, 5.1e-7, 1e-9, 2.5e-6, 1e-12]
+def _chance(tenths: int):
+    """Strategy of bools that is True in about tenths/10 of the draws."""
+    tenths = max(0, min(10, tenths))
+    return st.sampled_from([True] * tenths + [False] * (10 - tenths))
 
 
+@_cache
 def coords(cfg: GenConfig = DEFAULT):
     """Coordinates / texture axes: written with 6 decimals."""
     tiny = st.sampled_from(TINY + ([-x for x in TINY] if cfg.tiny_negative else []))
-    base = [
+    s = st.one_of(
         st.integers(-4096, 4096).map(float),
         st.integers(-4096, 4096).map(float),
         st.integers(-262144, 262144).map(lambda n: n / 8),
@@ -106,13 +138,13 @@ def coords(cfg: GenConfig = DEFAULT):
         gens.f32(-1e6, 1e6),
         st.floats(-1e9, 1e9, allow_nan=False, allow_infinity=False),
         tiny,
-    ]
-    s = st.one_of(*base)
+    )
     if not cfg.tiny_negative:
         s = s.map(lambda x: 0.0 if -5e-7 <= x < 0 else x)
     return s
 
 
+@_cache
 def gnums():
     """Numbers written with '%g' (6 significant digits): rotation, output delay, multiblend Vec4."""
     return st.one_of(
@@ -122,6 +154,7 @@ def gnums():
     )
 
 
+@_cache
 def exact_floats():
     """Numbers written with repr() (displacement distances, alphas, elevation)."""
     return st.one_of(
@@ -131,10 +164,12 @@ def exact_floats():
     )
 
 
+@_cache
 def vec3(cfg: GenConfig = DEFAULT):
     return st.lists(coords(cfg), min_size=3, max_size=3)
 
 
+@_cache
 def colors():
     return st.one_of(
         st.lists(st.integers(0, 255).map(float), min_size=3, max_size=3),
@@ -142,21 +177,22 @@ def colors():
     )
 
 
+@_cache
 def ids(lo: int = 1, hi: int = 40):
     """Explicit id or -1 (= allocate)."""
     return st.one_of(st.just(-1), st.integers(lo, hi), st.integers(lo, 100000))
 
 
-def plain_text(max_size: int = 10):
-    return st.text('abcdefXYZ_0123 -./', max_size=max_size)
+@_cache
+def nasty_text(exclude: str = '', min_size: int = 0, max_size: int = 10):
+    return st.text(gens.text_alphabet(exclude=exclude), min_size=min_size, max_size=max_size)
 
 
+@_cache
 def any_text(cfg: GenConfig = DEFAULT, exclude: str = ''):
     """Values: plain words, or the escape-heavy alphabet incl. newlines and arbitrary Unicode."""
-    plain = plain_text(cfg.max_text)
-    if exclude:
-        plain = st.text(''.join(c for c in 'abcdefXYZ_0123 -./' if c not in exclude), max_size=cfg.max_text)
-    return _weighted(plain, st.text(gens.text_alphabet(exclude=exclude), max_size=cfg.max_text), max(cfg.nasty, 0.1) + 0.2)
+    plain = st.text(''.join(c for c in PLAIN_CHARS if c not in exclude), max_size=cfg.max_text)
+    return _weighted(plain, nasty_text(exclude, 0, cfg.max_text), max(cfg.nasty, 0.1) + 0.2)
 
 
 def key_ok(key: str) -> bool:
@@ -168,29 +204,29 @@ def world_key_ok(key: str) -> bool:
     return key_ok(key) and key.casefold() not in ('classname', 'mapversion')
 
 
-COMMON_KEYS = ['targetname', 'origin', 'angles', 'spawnflags', 'model', 'file', 'Target', 'rendercolor', 'message']
-
-
+@_cache
 def ent_keys(cfg: GenConfig = DEFAULT, world: bool = False):
     ok = world_key_ok if world else key_ok
     plain = st.one_of(st.sampled_from(COMMON_KEYS), gens.ident(1, 8)).filter(ok)
-    nasty = st.text(gens.text_alphabet(exclude='\r\n'), max_size=8).filter(ok)
-    return _weighted(plain, nasty, cfg.nasty)
+    return _weighted(plain, nasty_text('\r\n', 0, 8).filter(ok), cfg.nasty)
 
 
+@_cache
 def materials(cfg: GenConfig = DEFAULT):
     plain = st.one_of(
         st.sampled_from(['tools/toolsnodraw', 'TOOLS/TOOLSSKIP', 'brick/brickfloor001a', 'dev/dev_measuregeneric01']),
         st.text('abcXYZ019_/', min_size=0, max_size=12),
     )
-    return _weighted(plain, st.text(gens.text_alphabet(), max_size=cfg.max_text), cfg.nasty)
+    return _weighted(plain, nasty_text('', 0, cfg.max_text), cfg.nasty)
 
 
+def _fixup_var_ok(s: str) -> bool:
+    return not s.startswith('$') and not any(ch.isspace() for ch in s)
+
+
+@_cache
 def fixup_vars(cfg: GenConfig = DEFAULT):
-    ws = ' \t\n\r\v\f\x1c\x1d\x1e\x1f\x85\xa0   　'
-    nasty = st.text(gens.text_alphabet(exclude=ws), min_size=1, max_size=6).filter(
-        lambda s: not s.startswith('$') and not any(ch.isspace() for ch in s))
-    return _weighted(gens.ident(1, 8), nasty, cfg.nasty)
+    return _weighted(gens.ident(1, 8), nasty_text(' \t\n\r\v\f', 1, 6).filter(_fixup_var_ok), cfg.nasty)
 
 
 def is_nasty(s: str) -> bool:
@@ -198,90 +234,103 @@ def is_nasty(s: str) -> bool:
     return any(ch in s for ch in '"\\\n\t\r\v\b\f\a\'') or any(ord(ch) < 32 or ord(ch) > 126 for ch in s)
 
 
-# ---------------------------------------------------------------------------------------------------------------------
-# Composite descriptors
-# ---------------------------------------------------------------------------------------------------------------------
-
 def _no_instance_prefix(s: str) -> bool:
     return not s.casefold().startswith('instance:')
 
 
-@st.composite
-def output_descs(draw, cfg: GenConfig = DEFAULT):
-    """One Output: separator kind, instance forms, params with commas/newlines/quotes, delay, times."""
-    comma = draw(st.booleans())
+_IO_NAMES = st.sampled_from(['OnTrigger', 'OnStartTouch', 'OnUser1', 'OnMapSpawn', 'Trigger', 'Kill', 'SetValue', 'FireUser1'])
+_TARGETS = st.one_of(gens.ident(0, 8), st.just('!self'), st.just('@glados'))
+_PARAMS = st.sampled_from(['', '', '1', '0 0 0', 'a,b', ',', 'x,y,z,w,,'])
+_TIMES = st.sampled_from([-1, -1, 1, 0, 5, 100])
+
+
+@_cache
+def _output_fields(cfg: GenConfig, comma: bool):
     sep_excl = '\x1b' + (',' if comma else '')
-    name_plain = st.sampled_from(['OnTrigger', 'OnStartTouch', 'OnUser1', 'OnMapSpawn', 'Trigger', 'Kill', 'SetValue', 'FireUser1'])
 
     def names(excl: str):
-        return _weighted(name_plain, st.text(gens.text_alphabet(exclude=excl), max_size=8).filter(_no_instance_prefix), cfg.nasty)
+        return _weighted(_IO_NAMES, nasty_text(excl, 0, 8).filter(_no_instance_prefix), cfg.nasty)
 
     def inst_names(excl: str):
-        return st.one_of(st.none(), st.none(), gens.ident(1, 6),
-                         st.text(gens.text_alphabet(exclude=excl + ';'), min_size=1, max_size=6) if cfg.nasty > 0 else gens.ident(1, 6))
+        return _pick((4, st.none()), (2, gens.ident(1, 6)), (1, nasty_text(excl + ';', 1, 6) if cfg.nasty > 0 else gens.ident(1, 6)))
 
-    return {
-        'out': draw(names('\x1b\r\n')),
-        'inst_out': draw(inst_names('\x1b\r\n')),
-        'targ': draw(_weighted(st.one_of(gens.ident(0, 8), st.just('!self'), st.just('@glados')),
-                               st.text(gens.text_alphabet(exclude=sep_excl), max_size=8), cfg.nasty)),
-        'inp': draw(names(sep_excl)),
-        'inst_in': draw(inst_names(sep_excl)),
-        'param': draw(st.one_of(st.just(''), st.sampled_from(['1', '0 0 0', 'a,b', ',', 'x,y,z,w,,']),
-                                any_text(cfg, exclude='\x1b'))),
-        'delay': draw(gnums().map(abs)),
-        'times': draw(st.sampled_from([-1, -1, 1, 0, 5, 100])),
-        'comma_sep': comma,
-    }
+    return st.fixed_dictionaries({
+        'out': names('\x1b\r\n'),
+        'inst_out': inst_names('\x1b\r\n'),
+        'targ': _weighted(_TARGETS, nasty_text(sep_excl, 0, 8), cfg.nasty),
+        'inp': names(sep_excl),
+        'inst_in': inst_names(sep_excl),
+        'param': _pick((1, _PARAMS), (1, any_text(cfg, exclude='\x1b'))),
+        'delay': gnums().map(abs),
+        'times': _TIMES,
+        'comma_sep': st.just(comma),
+    })
 
 
-@st.composite
-def fixup_descs(draw, cfg: GenConfig = DEFAULT):
+@_cache
+def output_descs(cfg: GenConfig = DEFAULT):
+    """One Output: separator kind, instance forms, params with commas/newlines/quotes, delay, times."""
+    return st.one_of(_output_fields(cfg, True), _output_fields(cfg, False))
+
+
+@_cache
+def fixup_descs(cfg: GenConfig = DEFAULT):
     hi = 120 if cfg.fixup_big_ids else 99
-    fid = draw(st.one_of(st.integers(1, 6), st.integers(0, hi)))
-    return [draw(fixup_vars(cfg)), draw(any_text(cfg)), fid]
+    return st.tuples(fixup_vars(cfg), any_text(cfg), st.one_of(st.integers(1, 6), st.integers(0, hi))).map(list)
 
 
-@st.composite
-def vertex_descs(draw, cfg: GenConfig, multiblend: bool):
-    mb = None
-    if multiblend and draw(st.booleans()):
-        mb = {
-            'b': draw(st.lists(gnums(), min_size=4, max_size=4)),
-            'a': draw(st.lists(gnums(), min_size=4, max_size=4)),
-            'c': draw(st.one_of(st.none(), st.lists(vec3(cfg), min_size=4, max_size=4))),
-        }
-    return {
-        'n': draw(vec3(cfg)), 'd': draw(exact_floats()), 'o': draw(vec3(cfg)), 'on': draw(vec3(cfg)),
-        'a': draw(exact_floats()), 't': [draw(st.sampled_from([0, 1, 9])), draw(st.sampled_from([0, 1, 9]))],
-        'mb': mb,
-    }
+_TAGS = st.lists(st.sampled_from([0, 1, 9]), min_size=2, max_size=2)
 
 
-@st.composite
-def disp_descs(draw, cfg: GenConfig = DEFAULT):
-    """Displacement data: a palette of vertex descriptors laid out by (a*x + b*y + c) % len(palette)."""
-    power = draw(st.integers(1, max(1, min(4, cfg.max_disp_power))))
-    multiblend = cfg.multiblend and draw(st.integers(0, 2)) == 0
-    palette = draw(st.lists(vertex_descs(cfg, multiblend), min_size=1, max_size=5 if power <= 2 else 7))
-    pattern = [draw(st.integers(0, 6)), draw(st.integers(0, 6)), draw(st.integers(0, 6))]
+@_cache
+def vertex_descs(cfg: GenConfig, multiblend: bool):
+    vec4 = st.lists(gnums(), min_size=4, max_size=4)
+    mb = st.none()
     if multiblend:
-        # precondition: at least one non-zero multi_blend -> force it on the vertex at (0, 0)
-        v0 = palette[pattern[2] % len(palette)]
+        mb = _pick((1, st.none()), (1, st.fixed_dictionaries({
+            'b': vec4, 'a': vec4, 'c': _pick((1, st.none()), (1, st.lists(vec3(cfg), min_size=4, max_size=4))),
+        })))
+    return st.fixed_dictionaries({
+        'n': vec3(cfg), 'd': exact_floats(), 'o': vec3(cfg), 'on': vec3(cfg), 'a': exact_floats(), 't': _TAGS, 'mb': mb,
+    })
+
+
+_ALLOWED = st.one_of(st.just([-1] * 10), st.lists(st.integers(-2 ** 31, 2 ** 31 - 1), min_size=10, max_size=10))
+_PATTERN = st.lists(st.integers(0, 6), min_size=3, max_size=3)
+_NONZERO_BLEND = st.sampled_from([1.0, 0.5, -2.0, 1e-3])
+
+
+@_cache
+def _disp_body(cfg: GenConfig, power: int, multiblend: bool):
+    return st.fixed_dictionaries({
+        'power': st.just(power), 'pos': vec3(cfg), 'elev': exact_floats(), 'flags': st.integers(0, 15), 'allowed': _ALLOWED,
+        'palette': st.lists(vertex_descs(cfg, multiblend), min_size=1, max_size=5 if power <= 2 else 7),
+        'pattern': _PATTERN, 'force_blend': _NONZERO_BLEND if multiblend else st.none(),
+    })
+
+
+def _fix_multiblend(disp: dict) -> dict:
+    """Precondition: a displacement with multiblend data has at least one non-zero multi_blend -> force it at (0, 0)."""
+    force = disp.pop('force_blend')
+    if force is not None:
+        v0 = disp['palette'][disp['pattern'][2] % len(disp['palette'])]
         if v0['mb'] is None:
-            v0['mb'] = {'b': [1.0, 0.0, 0.0, 0.0], 'a': [0.0, 0.0, 0.0, 0.0], 'c': None}
-        if not any(v0['mb']['b']):
-            v0['mb']['b'] = [draw(st.sampled_from([1.0, 0.5, -2.0, 1e-3]))] + list(v0['mb']['b'][1:])
-    return {
-        'power': power,
-        'pos': draw(vec3(cfg)),
-        'elev': draw(exact_floats()),
-        'flags': draw(st.integers(0, 15)),
-        'allowed': draw(st.one_of(st.just([-1] * 10),
-                                  st.lists(st.integers(-2 ** 31, 2 ** 31 - 1), min_size=10, max_size=10))),
-        'palette': palette,
-        'pattern': pattern,
-    }
+            v0['mb'] = {'b': [force, 0.0, 0.0, 0.0], 'a': [0.0, 0.0, 0.0, 0.0], 'c': None}
+        elif not any(v0['mb']['b']):
+            v0['mb']['b'] = [force] + list(v0['mb']['b'][1:])
+    return disp
+
+
+@_cache
+def disp_descs(cfg: GenConfig = DEFAULT):
+    """Displacement data: a palette of vertex descriptors laid out by (a*x + b*y + c) % len(palette)."""
+    alts = []
+    for power in range(1, max(1, min(4, cfg.max_disp_power)) + 1):
+        alts.append(_disp_body(cfg, power, False))
+        alts.append(_disp_body(cfg, power, False))
+        if cfg.multiblend:
+            alts.append(_disp_body(cfg, power, True))
+    return st.one_of(*alts).map(_fix_multiblend)
 
 
 def disp_vertex_desc(disp: dict, x: int, y: int) -> dict:
@@ -290,99 +339,121 @@ def disp_vertex_desc(disp: dict, x: int, y: int) -> dict:
     return pal[(a * x + b * y + c) % len(pal)]
 
 
+@_cache
 def uvaxes(cfg: GenConfig = DEFAULT):
     std = st.sampled_from([[1.0, 0.0, 0.0, 0.0, 0.25], [0.0, -1.0, 0.0, 0.0, 0.25], [0.0, 0.0, -1.0, 16.0, 0.5]])
     return st.one_of(std, st.lists(coords(cfg), min_size=5, max_size=5))
 
 
-@st.composite
-def side_descs(draw, cfg: GenConfig = DEFAULT, allow_disp: Optional[bool] = None):
+@_cache
+def side_descs(cfg: GenConfig = DEFAULT, allow_disp: Optional[bool] = None):
     if allow_disp is None:
         allow_disp = cfg.displacements
-    disp = None
-    if allow_disp and draw(st.integers(0, 9)) < int(round(cfg.disp_weight * 10)):
-        disp = draw(disp_descs(cfg))
-    points = None
-    if cfg.strata and draw(st.integers(0, 4)) == 0:
-        points = draw(st.lists(vec3(cfg), max_size=5))
-    return {
-        'planes': draw(st.lists(vec3(cfg), min_size=3, max_size=3)),
-        'id': draw(ids()),
-        'lightmap': draw(st.sampled_from([16, 16, 4, 128, 0, -3])),
-        'smoothing': draw(st.one_of(st.just(0), st.integers(0, 2 ** 31 - 1))),
-        'mat': draw(materials(cfg)),
-        'rotation': draw(gnums()),
-        'uaxis': draw(uvaxes(cfg)),
-        'vaxis': draw(uvaxes(cfg)),
+    disp = st.none()
+    if allow_disp:
+        tenths = max(0, min(10, int(round(cfg.disp_weight * 10))))
+        disp = _pick((tenths, disp_descs(cfg)), (10 - tenths, st.none())) if tenths < 10 else disp_descs(cfg)
+    points = st.none()
+    if cfg.strata:
+        points = _pick((4, st.none()), (1, st.lists(vec3(cfg), max_size=5)))
+    return st.fixed_dictionaries({
+        'planes': st.lists(vec3(cfg), min_size=3, max_size=3),
+        'id': ids(),
+        'lightmap': st.sampled_from([16, 16, 4, 128, 0, -3]),
+        'smoothing': st.one_of(st.just(0), st.integers(0, 2 ** 31 - 1)),
+        'mat': materials(cfg),
+        'rotation': gnums(),
+        'uaxis': uvaxes(cfg),
+        'vaxis': uvaxes(cfg),
         'points': points,
         'disp': disp,
-    }
+    })
 
 
-@st.composite
-def solid_descs(draw, cfg: GenConfig = DEFAULT):
+_SIZES = st.lists(st.one_of(st.integers(1, 512).map(float), st.sampled_from([-64.0, 0.5, 1024.0])), min_size=3, max_size=3)
+
+
+def _fix_prism(d: dict) -> dict:
+    p1, size = d['p1'], d.pop('size')
+    p2 = [a + b for a, b in zip(p1, size)]
+    for i in range(3):      # large magnitudes may swallow the size: keep the documented non-zero-volume precondition
+        if p2[i] == p1[i]:
+            p1[i] = 0.0
+            p2[i] = size[i]
+    d['p2'] = p2
+    return d
+
+
+@_cache
+def solid_descs(cfg: GenConfig = DEFAULT):
     """A make_prism box or a Solid of arbitrary Sides, plus the editor attributes."""
     common = {
-        'hidden': draw(st.sampled_from([False, False, True])),
-        'group_id': draw(st.one_of(st.none(), st.integers(1, 12))) if cfg.membership else None,
-        'vis_ids': draw(st.lists(st.integers(1, 40), max_size=3)) if cfg.membership else [],
-        'vis_shown': draw(st.booleans()),
-        'vis_auto_shown': draw(st.booleans()),
-        'is_cordon': draw(st.sampled_from([False, False, False, True])),
-        'color': draw(colors()),
+        'hidden': st.sampled_from([False, False, True]),
+        'group_id': st.one_of(st.none(), st.integers(1, 12)) if cfg.membership else st.none(),
+        'vis_ids': st.lists(st.integers(1, 40), max_size=3) if cfg.membership else st.just([]),
+        'vis_shown': BOOL, 'vis_auto_shown': BOOL,
+        'is_cordon': st.sampled_from([False, False, False, True]),
+        'color': colors(),
     }
-    if draw(st.booleans()):
-        p1 = draw(vec3(cfg))
-        size = draw(st.lists(st.one_of(st.integers(1, 512).map(float), st.sampled_from([-64.0, 0.5, 1024.0])), min_size=3, max_size=3))
-        p2 = [a + b for a, b in zip(p1, size)]
-        # large magnitudes may swallow the size: keep the documented non-zero-volume precondition
-        for i in range(3):
-            if p2[i] == p1[i]:
-                p1[i] = 0.0
-                p2[i] = size[i]
-        return dict(common, kind='prism', p1=p1, p2=p2, mat=draw(materials(cfg)),
-                    set_points=bool(cfg.strata and draw(st.integers(0, 3)) == 0))
-    sides = draw(st.lists(side_descs(cfg), min_size=1, max_size=cfg.max_sides))
-    return dict(common, kind='sides', id=draw(ids()), sides=sides)
+    prism = st.fixed_dictionaries(dict(
+        common, kind=st.just('prism'), p1=vec3(cfg), size=_SIZES, mat=materials(cfg),
+        set_points=_chance(3) if cfg.strata else st.just(False),
+    )).map(_fix_prism)
+    raw = st.fixed_dictionaries(dict(
+        common, kind=st.just('sides'), id=ids(), sides=st.lists(side_descs(cfg), min_size=1, max_size=cfg.max_sides),
+    ))
+    tenths = max(0, min(10, int(round(cfg.prism_weight * 10))))
+    return _pick((tenths, prism), (10 - tenths, raw))
 
 
-@st.composite
-def entity_descs(draw, cfg: GenConfig = DEFAULT, world: bool = False, brush: Optional[bool] = None):
+def _finish_entity(d: dict) -> dict:
+    cls = d.pop('classname')
+    if cls is not None:
+        d['keys'].insert(0, ['classname', cls])
+    node = d.pop('nodeid')
+    if node is not None:
+        d['keys'].append(['nodeid', str(node)])
+    return d
+
+
+@_cache
+def entity_descs(cfg: GenConfig = DEFAULT, world: bool = False, brush: Optional[bool] = None):
     """Entity descriptor.  ``world``: worldspawn restrictions; ``brush``: force / forbid solids (None = either)."""
-    keys = draw(st.lists(st.tuples(ent_keys(cfg, world), any_text(cfg)).map(list), max_size=cfg.max_keys))
-    if not world:
-        cls = draw(st.sampled_from(['info_target', 'func_detail', 'func_instance', 'logic_relay', 'prop_static', 'trigger_multiple']))
-        if draw(st.integers(0, 9)) > 0:
-            keys.insert(0, ['classname', cls])
-        if cfg.nodeid and draw(st.integers(0, 9)) == 0:
-            keys.append(['nodeid', str(draw(st.integers(1, 6)))])
     extras = cfg.world_extras or not world
-    n_solids = 0
+    member = cfg.membership and not world
+    solids = st.just([])
     if cfg.solids and brush is not False:
         lim = cfg.max_world_solids if world else cfg.max_ent_solids
-        n_solids = draw(st.integers(1 if brush else 0, lim))
-    return {
-        'keys': keys,
-        'fixups': draw(st.lists(fixup_descs(cfg), max_size=cfg.max_fixups)) if extras else [],
-        'id': draw(ids()),
-        'outputs': draw(st.lists(output_descs(cfg), max_size=cfg.max_outputs)) if extras else [],
-        'solids': [draw(solid_descs(cfg)) for _ in range(n_solids)],
-        'hidden': (not world) and draw(st.sampled_from([False, False, True])),
-        'groups': [] if world or not cfg.membership else draw(st.lists(st.integers(1, 12), max_size=2)),
-        'vis_ids': [] if world or not cfg.membership else draw(st.lists(st.integers(1, 40), max_size=3)),
-        'vis_shown': world or draw(st.booleans()),
-        'vis_auto_shown': world or draw(st.booleans()),
-        'logical_pos': None if world else draw(st.one_of(
-            st.none(), st.none(), st.tuples(st.integers(-5000, 5000), st.integers(0, 20000)).map(lambda t: f'[{t[0]} {t[1]}]'),
-            any_text(cfg) if cfg.nasty > 0 else st.none())),
-        'color': draw(colors()),
-        'comments': draw(st.one_of(st.just(''), any_text(cfg))) if extras else '',
-    }
+        solids = st.lists(solid_descs(cfg), min_size=1 if brush else 0, max_size=lim)
+    logical = st.none()
+    if not world:
+        logical = _pick(
+            (5, st.none()),
+            (3, st.tuples(st.integers(-5000, 5000), st.integers(0, 20000)).map(lambda t: f'[{t[0]} {t[1]}]')),
+            (2 if cfg.nasty > 0 else 0, any_text(cfg)))
+    return st.fixed_dictionaries({
+        'keys': st.lists(st.tuples(ent_keys(cfg, world), any_text(cfg)).map(list), max_size=cfg.max_keys),
+        'classname': st.none() if world else _pick((1, st.none()), (9, st.sampled_from(CLASSNAMES))),
+        'nodeid': _pick((9, st.none()), (1, st.integers(1, 6))) if cfg.nodeid and not world else st.none(),
+        'fixups': st.lists(fixup_descs(cfg), max_size=cfg.max_fixups) if extras else st.just([]),
+        'id': ids(),
+        'outputs': st.lists(output_descs(cfg), max_size=cfg.max_outputs) if extras else st.just([]),
+        'solids': solids,
+        'hidden': st.just(False) if world else st.sampled_from([False, False, True]),
+        'groups': st.lists(st.integers(1, 12), max_size=2) if member else st.just([]),
+        'vis_ids': st.lists(st.integers(1, 40), max_size=3) if member else st.just([]),
+        'vis_shown': st.just(True) if world else BOOL,
+        'vis_auto_shown': st.just(True) if world else BOOL,
+        'logical_pos': logical,
+        'color': colors(),
+        'comments': _pick((2, st.just('')), (1, any_text(cfg))) if extras else st.just(''),
+    }).map(_finish_entity)
 
 
+@_cache
 def visgroup_descs(cfg: GenConfig = DEFAULT):
     leaf = st.fixed_dictionaries({
-        'name': any_text(cfg), 'id': ids(1, 40), 'color': colors(), 'children': st.just([]),
+        'name': any_text(cfg), 'id': ids(1, 40), 'color': colors(), 'children': st.builds(list),
     })
     return st.recursive(
         leaf,
@@ -393,20 +464,20 @@ def visgroup_descs(cfg: GenConfig = DEFAULT):
     )
 
 
+@_cache
 def group_descs():
-    return st.fixed_dictionaries({
-        'id': ids(1, 12), 'shown': st.booleans(), 'auto_shown': st.booleans(), 'color': colors(),
-    })
+    return st.fixed_dictionaries({'id': ids(1, 12), 'shown': BOOL, 'auto_shown': BOOL, 'color': colors()})
 
 
+@_cache
 def camera_descs(cfg: GenConfig = DEFAULT):
     return st.fixed_dictionaries({'pos': vec3(cfg), 'target': vec3(cfg)})
 
 
+@_cache
 def cordon_descs(cfg: GenConfig = DEFAULT):
     return st.fixed_dictionaries({
-        'min': vec3(cfg), 'max': vec3(cfg), 'active': st.booleans(),
-        'name': st.one_of(st.just('Cordon'), any_text(cfg)),
+        'min': vec3(cfg), 'max': vec3(cfg), 'active': BOOL, 'name': _pick((1, st.just('Cordon')), (2, any_text(cfg))),
     })
 
 
@@ -414,31 +485,28 @@ def _uv_ok(x: float) -> bool:
     return abs(x) >= 1e-3 and abs(abs(x) - 65536.0) >= 1e-3
 
 
-@st.composite
-def viewport_descs(draw, cfg: GenConfig = DEFAULT):
-    if draw(st.booleans()):
-        return {'kind': '3d', 'pos': draw(vec3(cfg)), 'angle': draw(st.lists(st.one_of(
-            st.integers(-360, 720).map(float), st.floats(-720, 720, allow_nan=False).map(lambda v: round(v, 4))), min_size=3, max_size=3))}
+@_cache
+def viewport_descs(cfg: GenConfig = DEFAULT):
+    ang = st.one_of(st.integers(-360, 720).map(float), st.floats(-720, 720, allow_nan=False).map(lambda v: round(v, 4)))
     uv = coords(cfg).filter(_uv_ok)
-    return {'kind': '2d', 'axis': draw(st.sampled_from('xyz')), 'u': draw(uv), 'v': draw(uv),
-            'zoom': draw(st.one_of(st.just(1.0), st.floats(0.001, 256, allow_nan=False)))}
+    return st.one_of(
+        st.fixed_dictionaries({'kind': st.just('3d'), 'pos': vec3(cfg), 'angle': st.lists(ang, min_size=3, max_size=3)}),
+        st.fixed_dictionaries({'kind': st.just('2d'), 'axis': st.sampled_from('xyz'), 'u': uv, 'v': uv,
+                               'zoom': st.one_of(st.just(1.0), st.floats(0.001, 256, allow_nan=False))}),
+    )
 
 
-@st.composite
-def settings_descs(draw, cfg: GenConfig = DEFAULT):
-    s = {
-        'hammer_version': draw(st.sampled_from([400, 400, 0, 7])), 'hammer_build': draw(st.sampled_from([5304, 8000, 1])),
-        'is_prefab': draw(st.booleans()), 'cordon_enabled': draw(st.booleans()), 'map_version': draw(st.integers(0, 5000)),
-        'show_grid': draw(st.booleans()), 'show_3d_grid': draw(st.booleans()), 'snap_grid': draw(st.booleans()),
-        'show_logic_grid': draw(st.booleans()), 'grid_spacing': draw(st.sampled_from([64, 1, 16, 512, 3])),
-        'active_cam': draw(st.integers(-1, 4)), 'quickhide_count': draw(st.sampled_from([0, 0, 1, 17])),
-        'inst_vis': None, 'viewports': None,
-    }
-    if cfg.strata:
-        s['inst_vis'] = draw(st.sampled_from([None, 0, 1, 2]))
-        if draw(st.booleans()):
-            s['viewports'] = [draw(viewport_descs(cfg)) for _ in range(4)]
-    return s
+@_cache
+def settings_descs(cfg: GenConfig = DEFAULT):
+    inst_vis = st.sampled_from([None, 0, 1, 2]) if cfg.strata else st.none()
+    views = _pick((1, st.none()), (1, st.lists(viewport_descs(cfg), min_size=4, max_size=4))) if cfg.strata else st.none()
+    return st.fixed_dictionaries({
+        'hammer_version': st.sampled_from([400, 400, 0, 7]), 'hammer_build': st.sampled_from([5304, 8000, 1]),
+        'is_prefab': BOOL, 'cordon_enabled': BOOL, 'map_version': st.integers(0, 5000),
+        'show_grid': BOOL, 'show_3d_grid': BOOL, 'snap_grid': BOOL, 'show_logic_grid': BOOL,
+        'grid_spacing': st.sampled_from([64, 1, 16, 512, 3]), 'active_cam': st.integers(-1, 4),
+        'quickhide_count': st.sampled_from([0, 0, 1, 17]), 'inst_vis': inst_vis, 'viewports': views,
+    })
 
 
 DEFAULT_SETTINGS = {
@@ -448,24 +516,29 @@ DEFAULT_SETTINGS = {
 }
 
 
-@st.composite
-def map_descs(draw, cfg: GenConfig = DEFAULT, preserve_ids: Optional[bool] = None,
+def _finish_map(cfg: GenConfig):
+    def fn(desc: dict) -> dict:
+        if not (desc['preserve_ids'] and cfg.dup_ids):
+            dedupe_ids(desc)
+        return desc
+    return fn
+
+
+@_cache
+def map_descs(cfg: GenConfig = DEFAULT, preserve_ids: Optional[bool] = None,
               min_ents: int = 0, brush_ents: Optional[bool] = None):
     """Whole-map descriptor.  ``preserve_ids`` None = drawn; duplicate explicit ids are only left in with preserve_ids."""
-    p = draw(st.booleans()) if preserve_ids is None else preserve_ids
-    desc = {
-        'preserve_ids': p,
-        'settings': draw(settings_descs(cfg)) if cfg.meta and cfg.settings else dict(DEFAULT_SETTINGS),
-        'visgroups': draw(st.lists(visgroup_descs(cfg), max_size=cfg.max_visgroups)) if cfg.meta else [],
-        'groups': draw(st.lists(group_descs(), max_size=cfg.max_groups)) if cfg.meta else [],
-        'cameras': draw(st.lists(camera_descs(cfg), max_size=cfg.max_cameras)) if cfg.meta else [],
-        'cordons': draw(st.lists(cordon_descs(cfg), max_size=cfg.max_cordons)) if cfg.meta else [],
-        'world': draw(entity_descs(cfg, world=True)),
-        'entities': draw(st.lists(entity_descs(cfg, brush=brush_ents), min_size=min_ents, max_size=cfg.max_ents)),
-    }
-    if not (p and cfg.dup_ids):
-        dedupe_ids(desc)
-    return desc
+    meta = cfg.meta
+    return st.fixed_dictionaries({
+        'preserve_ids': BOOL if preserve_ids is None else st.just(preserve_ids),
+        'settings': settings_descs(cfg) if meta and cfg.settings else st.builds(lambda: dict(DEFAULT_SETTINGS)),
+        'visgroups': st.lists(visgroup_descs(cfg), max_size=cfg.max_visgroups) if meta else st.builds(list),
+        'groups': st.lists(group_descs(), max_size=cfg.max_groups) if meta else st.builds(list),
+        'cameras': st.lists(camera_descs(cfg), max_size=cfg.max_cameras) if meta else st.builds(list),
+        'cordons': st.lists(cordon_descs(cfg), max_size=cfg.max_cordons) if meta else st.builds(list),
+        'world': entity_descs(cfg, world=True),
+        'entities': st.lists(entity_descs(cfg, brush=brush_ents), min_size=min_ents, max_size=cfg.max_ents),
+    }).map(_finish_map(cfg))
 
 
 def dedupe_ids(desc: dict) -> None:
